@@ -136,7 +136,7 @@ fn log_fingerprint(recs: &[Record]) -> u64 {
 /// Execute the specs of a replay in fresh worker processes and re-evaluate
 /// the oracles. Returns (classes seen, records).
 pub fn execute_specs(specs: &[Spec], prop: &str, thorough: bool) -> (Vec<Violation>, Vec<Record>) {
-    let cfg = PoolConfig { workers: specs.len().min(4).max(1), chunk: 1, run_budget: Duration::from_secs(run_budget_secs()), deadline: None, thorough };
+    let cfg = PoolConfig { workers: specs.len().min(4).max(1), chunk: 1, run_budget: Duration::from_secs(run_budget_secs()), deadline: None, thorough, fresh_per_spec: false };
     let recs = run_collect(specs, &cfg);
     let mut agg = Agg::new(prop);
     let mut out = vec![];
@@ -154,6 +154,124 @@ pub fn census_budget_secs() -> u64 {
     run_budget_secs().min(10)
 }
 
+
+/// Property-level difference between two records of the SAME spec (one
+/// observed after some process history, one in a fresh process). None: the
+/// same at the level the properties speak about.
+pub fn property_level_difference(a: &Record, b: &Record) -> Option<String> {
+    if a.outcome != b.outcome {
+        return Some(format!("{}-after-history-vs-{}-fresh", a.outcome, b.outcome));
+    }
+    let fa: Vec<&String> = a.failures.iter().map(|f| &f.0).collect();
+    let fb: Vec<&String> = b.failures.iter().map(|f| &f.0).collect();
+    if fa != fb {
+        return Some("oracle-failures-differ".into());
+    }
+    if a.outcome == "some" && a.detail != b.detail {
+        return Some("different-image-after-history".into());
+    }
+    None
+}
+
+/// Run `seq` in ONE worker process, in order; records in order.
+pub fn execute_sequence(seq: &[Spec], thorough: bool) -> Vec<Option<Record>> {
+    let cfg = PoolConfig { workers: 1, chunk: seq.len().max(1), run_budget: Duration::from_secs(run_budget_secs()), deadline: None, thorough, fresh_per_spec: false };
+    run_collect(seq, &cfg)
+}
+
+/// Run every spec in its own fresh worker process.
+pub fn execute_fresh(specs: &[Spec], workers: usize, thorough: bool) -> Vec<Option<Record>> {
+    let cfg = PoolConfig { workers, chunk: 1, run_budget: Duration::from_secs(run_budget_secs()), deadline: None, thorough, fresh_per_spec: true };
+    run_collect(specs, &cfg)
+}
+
+/// History oracle: a record must be a function of its spec alone. A seeded
+/// sample of the runs of this batch is executed again, each in a fresh worker
+/// process, and compared with what was observed after whatever the long-lived
+/// worker had executed before.
+fn history_oracle(d: &mut Driver, specs: &[Spec]) {
+    let samples = std::mem::take(&mut d.hist_samples);
+    if samples.is_empty() {
+        return;
+    }
+    let thorough = d.args.tier == Tier::Thorough;
+    let again: Vec<Spec> = samples.iter().map(|s| s.0.clone()).collect();
+    let fresh = execute_fresh(&again, d.args.workers, thorough);
+    for ((spec, rec, hist), fr) in samples.iter().zip(fresh.into_iter()) {
+        let fr = match fr {
+            Some(r) if r.status == "ran" => r,
+            _ => continue,
+        };
+        d.hist_checked += 1;
+        match property_level_difference(rec, &fr) {
+            Some(diff) => {
+                d.violation_history = hist.iter().map(|&p| specs[p].clone()).collect();
+                d.unknown.push(Violation {
+                    class: format!("history:{}", diff),
+                    detail: format!(
+                        "the same run gives {:?}/{:?} after the {} runs its worker process had executed before, and {:?}/{:?} in a fresh process: the result depends on call history",
+                        rec.outcome, rec.detail, hist.len(), fr.outcome, fr.detail
+                    ),
+                    group: spec.group.clone(),
+                    witnesses: vec![spec.clone()],
+                    records: vec![rec.clone()],
+                });
+                return;
+            }
+            None => {
+                if rec.out_fp != fr.out_fp {
+                    d.hist_output_differences += 1;
+                }
+            }
+        }
+    }
+}
+
+/// Shrink a process history while `history + [spec]` still ends in a record
+/// that differs (at property level) from the fresh one.
+fn shrink_history(history: Vec<Spec>, spec: &Spec, fresh: &Record, thorough: bool, deadline: Instant) -> Vec<Spec> {
+    let still = |h: &[Spec]| -> bool {
+        let mut seq = h.to_vec();
+        seq.push(spec.clone());
+        match execute_sequence(&seq, thorough).pop().flatten() {
+            Some(r) if r.status == "ran" => property_level_difference(&r, fresh).is_some(),
+            _ => false,
+        }
+    };
+    let mut items = history;
+    let mut gran = 2usize;
+    let mut tests = 0;
+    while !items.is_empty() && tests < 60 && Instant::now() < deadline {
+        let n = items.len();
+        let g = gran.min(n);
+        let chunk = (n + g - 1) / g;
+        let mut reduced = false;
+        let mut start = 0;
+        while start < n {
+            let end = (start + chunk).min(n);
+            let kept: Vec<Spec> = items[..start].iter().chain(items[end..].iter()).cloned().collect();
+            tests += 1;
+            if still(&kept) {
+                items = kept;
+                gran = (gran - 1).max(2);
+                reduced = true;
+                break;
+            }
+            start = end;
+            if tests >= 60 || Instant::now() >= deadline {
+                break;
+            }
+        }
+        if !reduced {
+            if g >= n {
+                break;
+            }
+            gran = (gran * 2).min(n);
+        }
+    }
+    items
+}
+
 pub fn run_budget_secs() -> u64 {
     std::env::var("VERIF_RUN_BUDGET_S").ok().and_then(|s| s.parse().ok()).unwrap_or(60)
 }
@@ -168,6 +286,30 @@ pub fn replay_cmd(path: &Path) -> i32 {
         }
     };
     let thorough = rp.raw["tier"].as_str() == Some("thorough");
+    let history: Vec<Spec> = rp.raw["history"].as_array().map(|a| a.iter().filter_map(|x| Spec::from_json(x).ok()).collect()).unwrap_or_default();
+    if !history.is_empty() {
+        // history replay: the history and then the specs in ONE worker process,
+        // compared with the same specs in fresh processes
+        let mut seq = history.clone();
+        seq.extend(rp.specs.iter().cloned());
+        let after: Vec<Record> = execute_sequence(&seq, thorough).into_iter().skip(history.len()).flatten().collect();
+        let fresh: Vec<Record> = execute_fresh(&rp.specs, 1, thorough).into_iter().flatten().collect();
+        let mut seen = vec![];
+        for (a, f) in after.iter().zip(fresh.iter()) {
+            println!("replay run idx={} after {} earlier runs in the same process: outcome={} detail={:?}; in a fresh process: outcome={} detail={:?}", a.idx, history.len(), a.outcome, a.detail, f.outcome, f.detail);
+            if let Some(diff) = property_level_difference(a, f) {
+                seen.push(format!("history:{}", diff));
+            }
+        }
+        if seen.iter().any(|c| *c == rp.class) {
+            let exact = log_fingerprint(&after) == rp.log_fp;
+            println!("replay reproduces class {} ({})", rp.class, if exact { "event log identical to the recorded one" } else { "event log DIFFERS from the recorded one" });
+            println!("VIOLATION property={} replay={}", rp.property, path.display());
+            return EXIT_VIOLATION;
+        }
+        println!("replay does not reproduce class {} on this tree (classes seen: {:?})", rp.class, seen);
+        return EXIT_OK;
+    }
     let (viols, recs) = execute_specs(&rp.specs, &rp.property, thorough);
     let fp = log_fingerprint(&recs);
     for r in &recs {
@@ -214,6 +356,12 @@ struct Driver {
     hit_deadline: bool,
     plan_size: usize,
     in_census: bool,
+    /// history oracle: sampled (spec, record as observed, specs the same worker process ran before)
+    hist_samples: Vec<(Spec, Record, Vec<usize>)>,
+    /// worker history of the first unknown violation's last witness
+    violation_history: Vec<Spec>,
+    hist_checked: usize,
+    hist_output_differences: usize,
 }
 
 impl Driver {
@@ -224,6 +372,7 @@ impl Driver {
             run_budget: Duration::from_secs(if self.in_census { census_budget_secs() } else { run_budget_secs() }),
             deadline: Some(self.t0 + self.args.wall_cap),
             thorough: self.args.tier == Tier::Thorough,
+            fresh_per_spec: false,
         }
     }
 
@@ -245,7 +394,11 @@ impl Driver {
             let unjudged_hangs = &mut hangs;
             let mut bh = 0usize;
             let builder_hangs = &mut bh;
-            run_specs(specs, &cfg, move |pos, rec| {
+            let hist_samples = &mut self.hist_samples;
+            let violation_history = &mut self.violation_history;
+            let seed = self.args.seed;
+            let (sample_cap, sample_mod): (usize, u64) = if self.args.tier == Tier::Thorough { (1500, 600) } else { (240, 200) };
+            run_specs(specs, &cfg, move |pos, rec, hist| {
                 let new = agg.absorb(&specs[pos], &rec, judge);
                 let mut go_on = true;
                 for vi in new {
@@ -253,9 +406,17 @@ impl Driver {
                     if let Some(f) = findings.iter().find(|f| matches_finding(f, &prop, &v)) {
                         *known_hits.entry(format!("{} {}", f.class, f.tiling)).or_insert(0) += 1;
                     } else {
+                        if unknown.is_empty() {
+                            *violation_history = hist.iter().map(|&p| specs[p].clone()).collect();
+                        }
                         unknown.push(v);
                         go_on = keep_going;
                     }
+                }
+                // history oracle: a seeded sample of judged, non-trivial runs is
+                // re-executed later in fresh processes
+                if judge && rec.status == "ran" && !hist.is_empty() && hist_samples.len() < sample_cap && crate::prng::hmix(&[seed, 0x415, specs[pos].idx]) % sample_mod == 0 {
+                    hist_samples.push((specs[pos].clone(), rec.clone(), hist.to_vec()));
                 }
                 if rec.status != "ran" && rec.excluded_reason.starts_with("builder_") && !rec.excluded_reason.starts_with("builder_or_instrument_panic") {
                     // input builders that hang or die: bounded damage
@@ -319,6 +480,10 @@ pub fn check_cmd(args: CheckArgs) -> i32 {
         hit_deadline: false,
         plan_size: 0,
         in_census: false,
+        hist_samples: vec![],
+        violation_history: vec![],
+        hist_checked: 0,
+        hist_output_differences: 0,
     };
 
     // 1. regression replays: every listed finding (open or fixed) first
@@ -429,6 +594,9 @@ pub fn check_cmd(args: CheckArgs) -> i32 {
         d.plan_size += specs.len();
         println!("plan: {} runs in the exploration stage", specs.len());
         d.run_stage(&specs, true);
+        if d.unknown.is_empty() && !d.hit_deadline {
+            history_oracle(&mut d, &specs);
+        }
     }
 
     // 5. verdict
@@ -476,7 +644,7 @@ fn run_census_collect(d: &mut Driver, specs: &[Spec]) -> Vec<Option<Record>> {
         let known_hits = &mut d.known_hits;
         let unknown = &mut d.unknown;
         let kept_ref = &mut kept;
-        run_specs(specs, &cfg, move |pos, rec| {
+        run_specs(specs, &cfg, move |pos, rec, _hist| {
             let new = agg.absorb(&specs[pos], &rec, true);
             let mut go_on = true;
             for vi in new {
@@ -502,7 +670,7 @@ fn run_census_collect(d: &mut Driver, specs: &[Spec]) -> Vec<Option<Record>> {
 fn minimise_and_write(d: &Driver, v: &Violation) -> PathBuf {
     let prop = d.args.prop.clone();
     let thorough = d.args.tier == Tier::Thorough;
-    let cfg = PoolConfig { workers: d.args.workers, chunk: 1, run_budget: Duration::from_secs(run_budget_secs()), deadline: None, thorough };
+    let cfg = PoolConfig { workers: d.args.workers, chunk: 1, run_budget: Duration::from_secs(run_budget_secs()), deadline: None, thorough, fresh_per_spec: false };
     let mut shr = Shrinker {
         cfg: &cfg,
         evaluations: 0,
@@ -511,8 +679,17 @@ fn minimise_and_write(d: &Driver, v: &Violation) -> PathBuf {
     };
     let original: Vec<Spec> = v.witnesses.clone();
     let mut specs = original.clone();
-    let class = v.class.clone();
+    let mut class = v.class.clone();
     let mut schedule: Option<Spec> = None;
+    let mut history: Vec<Spec> = vec![];
+    if class.starts_with("history:") {
+        // found by the history oracle: shrink the process history, not the input
+        let spec = &specs[0];
+        if let Some(Some(fresh)) = execute_fresh(std::slice::from_ref(spec), 1, thorough).pop() {
+            history = shrink_history(d.violation_history.clone(), spec, &fresh, thorough, Instant::now() + Duration::from_secs(if thorough { 600 } else { 150 }));
+        }
+        return write_replay(d, v, &class, &specs, &history, &original, None, 0);
+    }
     // reference records: those observed when the violation was found
     let first_recs: Vec<Record> = v.records.clone();
     let hangs = class == "timeout" || class == "abort";
@@ -556,7 +733,43 @@ fn minimise_and_write(d: &Driver, v: &Violation) -> PathBuf {
         specs = original.clone();
         let r = execute_specs(&specs, &prop, thorough);
         recs = r.1;
+        if !r.0.iter().any(|x| x.class == class) && !d.violation_history.is_empty() {
+            // not reproducible from the specs alone: does the last witness behave
+            // differently after the history of its worker process?
+            let w = specs.last().unwrap().clone();
+            if let (Some(fresh), Some(observed)) = (recs.last().cloned(), v.records.last().cloned()) {
+                let mut seq = d.violation_history.clone();
+                seq.push(w.clone());
+                let after = execute_sequence(&seq, thorough).pop().flatten();
+                if let Some(after) = after {
+                    if property_level_difference(&after, &fresh).is_some() && property_level_difference(&after, &observed).is_none() {
+                        let diff = property_level_difference(&after, &fresh).unwrap();
+                        class = format!("history:{}", diff);
+                        history = shrink_history(d.violation_history.clone(), &w, &fresh, thorough, Instant::now() + Duration::from_secs(if thorough { 600 } else { 150 }));
+                        let hv = Violation { class: class.clone(), detail: format!("{} - and the violating run is only reproducible after the history of its worker process: the result depends on call history", v.detail), group: v.group.clone(), witnesses: vec![w.clone()], records: vec![observed] };
+                        return write_replay(d, &hv, &class, &[w], &history, &original, None, shr.evaluations);
+                    }
+                }
+            }
+        }
     }
+    let _ = &recs;
+    write_replay(d, v, &class, &specs, &history, &original, schedule, shr.evaluations)
+}
+
+#[allow(clippy::too_many_arguments)]
+fn write_replay(d: &Driver, v: &Violation, class: &str, specs: &[Spec], history: &[Spec], original: &[Spec], schedule: Option<Spec>, evaluations: usize) -> PathBuf {
+    let prop = d.args.prop.clone();
+    let thorough = d.args.tier == Tier::Thorough;
+    // the records the replay is expected to produce
+    let recs: Vec<Record> = if history.is_empty() {
+        execute_specs(specs, &prop, thorough).1
+    } else {
+        let mut seq = history.to_vec();
+        seq.extend(specs.iter().cloned());
+        let all = execute_sequence(&seq, thorough);
+        all.into_iter().skip(history.len()).flatten().collect()
+    };
     let steered = specs.iter().any(|s| !s.steer.is_empty() || s.steer_min_beyond);
     let (head, dirty) = git_head();
     let w = specs.last().unwrap();
@@ -572,10 +785,13 @@ fn minimise_and_write(d: &Driver, v: &Violation) -> PathBuf {
         "tier": d.args.tier.name(),
         "mode": if steered { "steered" } else { "real_keys" },
         "specs": specs.iter().map(|s| s.to_json()).collect::<Vec<_>>(),
+        "history": history.iter().map(|s| s.to_json()).collect::<Vec<_>>(),
+        "history_note": if history.is_empty() { "none: every spec runs in a fresh worker process" } else { "run these specs first, in this order, in ONE worker process, then the specs; the violation is that the last record differs from the same spec run in a fresh process" },
         "expected": recs.iter().map(|r| json!({"outcome": r.outcome, "detail": r.detail, "out_fp": format!("{:016x}", r.out_fp), "decisions": r.decisions.len(), "failures": r.failures.iter().map(|f| f.0.clone()).collect::<Vec<_>>(), "first_bad_state": r.first_bad_state})).collect::<Vec<_>>(),
         "log_fp": format!("{:016x}", log_fingerprint(&recs)),
-        "minimisation": {"evaluations": shr.evaluations, "original_specs": original.iter().map(|s| s.to_json()).collect::<Vec<_>>()},
+        "minimisation": {"evaluations": evaluations, "original_specs": original.iter().map(|s| s.to_json()).collect::<Vec<_>>()},
         "minimal_schedule": schedule.map(|s| s.to_json()),
+        "original_history_length": d.violation_history.len(),
         "repo_head": head,
         "repo_dirty": dirty,
         "hooks_compiled": hooks_compiled(),
@@ -672,6 +888,7 @@ fn write_evidence(d: &Driver, path: &Path, violations: i64, replays: &[Value], k
             "known_finding_hits": d.known_hits,
             "known_finding_lines": known_lines,
             "regression_replays": replays,
+            "history_oracle": {"runs_re_executed_in_fresh_processes": d.hist_checked, "property_level_differences": 0, "runs_whose_raw_output_differed_only": d.hist_output_differences, "note": "a record must be a function of its spec alone: a seeded sample of runs is executed again, each in a fresh worker process, and compared with what the long-lived worker produced after its history; a property-level difference is a violation (class history:...) and ends the check, so this count is 0 whenever the check passes"},
             "worker_deaths": d.worker_deaths,
             "timeouts": d.timeouts,
             "entropy_call_anomalies": a.entropy_anomalies,
